@@ -8,6 +8,13 @@ import (
 
 const dataPath = "data"
 
+// validDBName reports whether db names a directory directly under dataPath:
+// "a/b" would create a database that SHOW DATABASES lists as "a", and ".."
+// would leave the data directory.
+func validDBName(db string) bool {
+	return db != "." && db != ".." && !strings.ContainsAny(db, `/\`)
+}
+
 func makeDBDir(db string) error {
 	err := os.MkdirAll(filepath.Join(dataPath, strings.ToLower(db)), 0755)
 	if !os.IsExist(err) {
@@ -42,6 +49,9 @@ func dbFilePath(db string) (string, bool, error) {
 	if db == "" {
 		return "", false, ErrDBNotSelected
 	}
+	if !validDBName(db) {
+		return "", false, ErrDBNameInvalid
+	}
 
 	path := filepath.Join(dataPath, strings.ToLower(db), "tbl")
 
@@ -56,6 +66,9 @@ func dbFilePath(db string) (string, bool, error) {
 func walFilePath(db string) (string, bool, error) {
 	if db == "" {
 		return "", false, ErrDBNotSelected
+	}
+	if !validDBName(db) {
+		return "", false, ErrDBNameInvalid
 	}
 
 	path := filepath.Join(dataPath, strings.ToLower(db), "wal")
